@@ -1,3 +1,4 @@
+import os
 """C02: sibling agreement of the four adaptive selectors (R02.3) and writer/reader addressing (R02.4)."""
 import re
 from framework import rule, load_table
@@ -113,7 +114,7 @@ class _Bag(dict):
         self[it] = self.get(it, 0) + 1
 
 
-def sk_items(F, b, opaque, ren=None, param_terms=None):
+def sk_items(F, b, opaque, ren=None, param_terms=None, transparent=None):
     """multiset of skeleton items: (item, count) pairs so that a dropped duplicate store is seen.
     Parameters appear by position (self, p1, p2, ..), locals by name after the renaming `ren`."""
     bag = _Bag()
@@ -155,9 +156,16 @@ def sk_items(F, b, opaque, ren=None, param_terms=None):
                 neg_ = ("le", a_[2], a_[1], -a_[3] - 1)
                 ra = repr(normalize(canon(W.expand(a_[1])))), repr(normalize(canon(W.expand(a_[2]))))
                 atoms_ = [a_ if ra[0] <= ra[1] else neg_]
+            # a comparison that is the condition of a `while` is repeated until it fails: `if` in its place runs the body once
+            par_ = _PARENTS.get(id(n))
+            gp_ = _PARENTS.get(id(par_)) if par_ is not None else None
+            ggp_ = _PARENTS.get(id(gp_)) if gp_ is not None else None
+            is_loop_cond = par_ is not None and par_.get("k") == "If" and par_.get("c") is n and gp_ is not None and gp_.get("k") == "Block" and ggp_ is not None and ggp_.get("k") == "Loop" and ggp_.get("src") == "While"
             for a in atoms_:
                 if a[0] in ("le", "ne"):
                     items.add(("cmp", a[0], repr(normalize(canon(W.expand(a[1])))), repr(normalize(canon(W.expand(a[2])))), a[3]))
+                    if is_loop_cond:
+                        items.add(("while", a[0], repr(normalize(canon(W.expand(a[1])))), repr(normalize(canon(W.expand(a[2])))), a[3]))
                 else:
                     items.add(("cmp", repr(normalize(canon(W.expand(a[1])))), a[2]))
         elif k == "Binary" and n["op"] in ("<<", ">>", "&"):
@@ -194,6 +202,7 @@ def sk_items(F, b, opaque, ren=None, param_terms=None):
     if opaque == "all-lets":
         # every immutable local is kept as a named quantity and contributes one item (its definition)
         W.opaque_all = True
+        W.transparent_names = set(transparent or ())
         W.on_let = lambda p_, term: add("let:%s" % tagname(p_["name"]), term, W)
     else:
         W.opaque_names = dict(opaque)
@@ -229,6 +238,9 @@ def _tuplify(x):
     return tuple(_tuplify(y) for y in x) if isinstance(x, list) else x
 
 
+_LAST_CHANGED = []
+
+
 def unified_skeletons(F, bodies, opaque, param_terms=None, reference=None):
     """Skeletons of sibling bodies with the locals of every sibling renamed onto those of the first, and the
     locals of the first renamed onto the names it had when the table of confirmed differences was written
@@ -243,11 +255,27 @@ def unified_skeletons(F, bodies, opaque, param_terms=None, reference=None):
         # the sibling with its locals renamed to the names they had in its recorded skeleton
         raw = sk_items(F, b, opaque, None, pt)
         ren = unify_locals(ref, raw, FIXED_NAMES) if ref else {}
-        return (sk_items(F, b, opaque, ren, pt), ren) if ren else (raw, {})
+        transparent = None
+        if ref and opaque == "all-lets":
+            # a named quantity that the recorded skeleton does not have (a sub-expression hoisted into a `let` since)
+            # is not a quantity of the algorithm: it stands for its value
+            def lets(items):
+                return set(it[0].split(":", 1)[1] for it, _n in items if isinstance(it[0], str) and it[0].startswith("let:"))
+            ref_lets = lets(ref)
+            transparent = set(n for n in lets(raw) if ren.get(n, n) not in ref_lets)
+            if transparent:
+                raw = sk_items(F, b, opaque, None, pt, transparent)
+                ren = unify_locals(ref, raw, FIXED_NAMES)
+        own_transparent[id(b)] = transparent
+        return (sk_items(F, b, opaque, ren, pt, transparent), ren) if ren else (raw, {})
+    own_transparent = {}
     first, _ = own(bodies[0], pts[0], refs[0])
     out = [first]
+    # who still has the skeleton recorded for it (in its own names)
+    _LAST_CHANGED[:] = [refs[0] is not None and set(first) != refs[0]]
     for b, pt, ref in zip(bodies[1:], pts[1:], refs[1:]):
         cur, ren0 = own(b, pt, ref)
+        _LAST_CHANGED.append(ref is not None and set(cur) != ref)
         ren = unify_locals(first, cur, FIXED_NAMES)
         if ren:
             # compose: source name -> own reference name -> first sibling's name
@@ -255,7 +283,7 @@ def unified_skeletons(F, bodies, opaque, param_terms=None, reference=None):
             for src, dst in ren.items():
                 if src not in ren0.values():
                     comp.setdefault(src, dst)
-            cur = sk_items(F, b, opaque, comp, pt)
+            cur = sk_items(F, b, opaque, comp, pt, own_transparent.get(id(b)))
         out.append(cur)
     return out
 
@@ -271,6 +299,9 @@ def compare_siblings(ctx, rr, paths, what, allowed):
     sks = unified_skeletons(F, bodies, OPAQUE, NEW_PARAM_TERMS if what == "constructor" else None, load_table("select_siblings.json").get("_reference", {}).get(what))
     names = [strip_generics(b.key).split("::")[-2].replace("<", "").split(" as ")[0].split("::")[-1] if " as " in b.key else strip_generics(b.key).split("::")[-2] for b in bodies]
     names = ["SelectAdapt", "SelectAdaptConst", "SelectZeroAdapt", "SelectZeroAdaptConst"]
+    # which siblings no longer have the skeleton recorded for them (who was edited): used to say which properties a
+    # disagreement concerns
+    changed = [names[i] for i, c in enumerate(_LAST_CHANGED) if c] if len(_LAST_CHANGED) == len(names) else []
     union = set().union(*sks)
     common = set.intersection(*sks)
     rr.instances += len(bodies)
@@ -693,8 +724,6 @@ def r02_14(ctx, rr):
         asg = [n for n in walk(b.body) if n.get("k") == "Assign" and n["l"].get("k") == "Path" and n["l"].get("id") == end_id]
         lets = [n for n in walk(b.body) if n.get("k") == "LetStmt" and n["pat"].get("k") == "PBind" and n["pat"]["id"] == end_id and "init" in n]
         vals = [a["r"] for a in asg] + [l["init"] for l in lets]
-        if len(vals) < 2:
-            raise AnchorMissing("%s: expected the end of the search range to be assigned on two paths, found %d" % (b.key, len(vals)))
 
         def leaves(e):
             if e.get("k") == "If":
@@ -708,6 +737,9 @@ def r02_14(ctx, rr):
             if e.get("k") == "Block" and "expr" in e:
                 return leaves(e["expr"])
             return [e]
+        n_leaves = sum(len(leaves(v)) for v in vals)
+        if n_leaves < 2:
+            raise AnchorMissing("%s: expected the end of the search range to be given on two paths at least (an assignment per path, or the branches of one `if` value), found %d" % (b.key, n_leaves))
         for v in vals:
             for leaf in leaves(v):
                 t = T.term(leaf)
